@@ -97,6 +97,9 @@ func fieldProvenance(e *Env, rule string) {
 		if sp.expected == nil {
 			continue
 		}
+		if fieldProvenanceSSA(e, rule, sp) {
+			continue
+		}
 		fd, pk := e.P.Decl(sp.rel, sp.fn)
 		key := sp.rel + "." + sp.fn
 		if fd == nil {
